@@ -38,7 +38,9 @@ UNDEFINED = "UNDEFINED"
 
 # insert_empty: the insert form with an item that unwraps to nothing in front of next_inner - adds no frame, but goes
 # through the whole "insert before the rest" path (which a bare next_inner, being documented as a no-op, does not)
-SIMPLE_ELABS = [["none"]] * 6 + [["prune"], ["prune"], ["empty"], ["self"], ["insert_empty"], ["insert_empty"]]
+# insert_none: (None, next_inner) - what the documented spelling `return (frame.pyframe.f_locals.get("thread"), next_inner)`
+# gives when there is nothing to insert: None is no stack item, as in the results of unwrap_stackitem
+SIMPLE_ELABS = [["none"]] * 6 + [["prune"], ["prune"], ["empty"], ["self"], ["insert_empty"], ["insert_empty"], ["insert_none"]]
 
 
 def _seq(children, allow_leaf=True):
@@ -130,6 +132,8 @@ class Numberer:
             return [k]
         if k == "insert_empty":
             return ["insert", [{"name": self.item_name(), "u": "empty", "ch": []}]]
+        if k == "insert_none":
+            return ["insert", [None]]
         if self.nf >= KMAX - 8:
             return ["none"]
         if k in ("replace", "replace_tuple", "replace_deque", "insert", "insert_tuple", "insert_deque"):
